@@ -40,6 +40,7 @@ type c25Run struct {
 	WithSub       bool       `json:"with_subscription"`
 	ReuseClient   bool       `json:"reuse_client"` // retry Connect on the same Client after a failed Connect
 
+	cl        *opcua.Client // the client under test (for hint)
 	mu        sync.Mutex
 	states    []opcua.ConnState
 	stateAt   []time.Duration
@@ -357,6 +358,7 @@ func (r *c25Run) Main(s *sim.Sim) {
 			s.Nontrivial()
 		}
 		if connected && r.AutoReconnect {
+			r.cl = cl
 			if st := cl.State(); st != opcua.Connected {
 				s.Fail("C25", "liveness", "not-connected-after-faults:"+r.hint(), "state is %v, %v after the last fault ended (bound %v); states=%v", st, s.Now()-r.last(), bound, r.stateLog())
 				return
@@ -420,12 +422,25 @@ func (r *c25Run) Main(s *sim.Sim) {
 	r.env().cancel()
 }
 
-// hint narrows a liveness failure down to a catalogued cause, if one applies.
+// hint narrows a liveness failure down to a catalogued cause, if the evidence
+// of that cause is present: both catalogued findings end with a client that has
+// no live transport connection and nobody working on getting one (it reports
+// Connected on a connection that was reset, or its reconnect monitor is not
+// running at all). A failure without that evidence is not explained by them.
 func (r *c25Run) hint() string {
+	conns := r.s.Net.Conns()
+	dead := len(conns) > 0 && conns[len(conns)-1].Dead()
+	monitorRunning := false
+	for _, g := range strings.Split(sim.GoroutineDump(), "\n\n") {
+		if strings.Contains(g, "opcua.(*Client).monitor(") {
+			monitorRunning = true
+		}
+	}
+	stuckOnDeadConn := dead && r.cl != nil && r.cl.State() == opcua.Connected
 	switch {
-	case r.ReuseClient && r.s.ProbeCount("connect-retried-on-same-client") > 0:
+	case r.ReuseClient && r.s.ProbeCount("connect-retried-on-same-client") > 0 && (stuckOnDeadConn || !monitorRunning):
 		return "connect-retried-on-same-client"
-	case r.s.Label("client.monitor.drainError") > 0:
+	case r.s.Label("client.monitor.drainError") > 0 && stuckOnDeadConn:
 		return "disconnect-error-drained-after-reconnect"
 	}
 	return "unexplained"
